@@ -254,6 +254,32 @@ func (w *worker) stderr() string {
 	return string(w.errbuf)
 }
 
+// capAddressSpace lowers the soft address-space limit to what the process has mapped now plus `extra` bytes and returns the
+// function that puts the worker's 12 GB limit back. Used around X lines: a program of the modelled executor subset holds at
+// most a few MB of values (every container operation is bounded by MAX_ARRAY_SIZE / MAX_CLONE_LENGTH), so an X line that
+// needs gigabytes is a blow-up - reported after 3 GB as `fatal-out-of-memory` instead of after eating 12 GB of a shared machine.
+func capAddressSpace(extra uint64) func() {
+	var old syscall.Rlimit
+	if syscall.Getrlimit(syscall.RLIMIT_AS, &old) != nil {
+		return func() {}
+	}
+	b, err := os.ReadFile("/proc/self/statm")
+	f := strings.Fields(string(b))
+	if err != nil || len(f) == 0 {
+		return func() {}
+	}
+	pages, err := strconv.ParseUint(f[0], 10, 64)
+	if err != nil {
+		return func() {}
+	}
+	lim := pages*uint64(os.Getpagesize()) + extra
+	if lim >= old.Cur {
+		return func() {}
+	}
+	syscall.Setrlimit(syscall.RLIMIT_AS, &syscall.Rlimit{Cur: lim, Max: old.Max})
+	return func() { syscall.Setrlimit(syscall.RLIMIT_AS, &old) }
+}
+
 // fatalSite: from the traceback of a fatal error: which functions of the repository recurse (stack overflow) / are on top.
 func fatalSite(tb string) (what, site, nt string) {
 	what = "fatal"
